@@ -46,8 +46,21 @@ def _on_line_set(self, value, exc, token):
     if any(not (isinstance(i, int) and 1 <= i <= 65535) for i in items):
         return  # outside the quantifier
     want = intervals.from_operator(op, items)
-    got = intervals.from_ints(self.ports)
+    # the views are read in alternating order: a view computed on demand must not depend on which one is asked first
+    if STATS["inv"] % 2:
+        first_sport = self.sport
+        got = intervals.from_ints(self.ports)
+    else:
+        got = intervals.from_ints(self.ports)
+        first_sport = self.sport
     problems = []
+    if first_sport != self.sport:
+        problems.append(f"sport read before ports {first_sport[:40]!r} differs from sport read after {self.sport[:40]!r}")
+    try:
+        if intervals.decode(first_sport) != want:
+            problems.append(f"sport {first_sport[:60]!r} (read before ports) does not decode to the set")
+    except ValueError:
+        problems.append(f"sport {first_sport[:60]!r} is not decodable")
     if got != want:
         problems.append(f"ports {intervals.encode(got)!r} != Cisco set {intervals.encode(want)!r}")
     dup = len(set(items)) != len(items)  # repeated operands: only the denoted *set* is judged (ASSUMPTIONS)
